@@ -368,11 +368,14 @@ Section Gate.
     intros l0 H. unfold check_expiry. apply Z.leb_gt in H. rewrite H. reflexivity.
   Qed.
 
-  (** any rejection by stage one is the verdict for every link directory *)
-  Theorem any_links : forall a d0 e,
-    stage_pre (match d0 with Dir files _ => files end) a = Err e ->
-    gate (a_md a) (a_keys a) = Err e -> forall d, vfy d a = (Err e, []).
-  Proof. intros a d0 e _ H d. exact (gate_Err_rejects a e H d). Qed.
+  Lemma expiry_boundary : forall a l0 u,
+    vms (a_md a) (a_keys a) = Ok u -> get_payload (a_md a) = Ok (PLayout l0) ->
+    ((ly_expires_us l0 <= now_us)%Z -> forall d, vfy d a = (Err EExpired, [])) /\
+    ((now_us < ly_expires_us l0)%Z -> gate (a_md a) (a_keys a) = Ok l0).
+  Proof.
+    intros a l0 u Hs Hp. split; [exact (expired_rejected a l0 u Hs Hp)|].
+    intro H. unfold gate. rewrite Hs, Hp. cbn [bind]. rewrite (not_expired_passes l0 H). reflexivity.
+  Qed.
 
   (* ---------------------------------------------------------------- *)
   (** * Edited content under ideal signatures *)
